@@ -186,6 +186,7 @@ class StoreDriver(object):
 
         def do_save(cat, m, probe=False, idx=0):
             r = writer.create_new_recording(cat)
+            cross = None
             if probe:
                 # the id exists, nothing is stored under it yet: looked up through the very cassette that will save it
                 for fn, name in ((writer.get_recording, 'get_recording'), (writer.get_recording_metadata, 'get_recording_metadata')):
@@ -199,6 +200,13 @@ class StoreDriver(object):
             for _attempt in range(20):
                 data = make_data(rnd, self.rich)
                 pm = py_meta(m, rnd, self.rich)
+                if self.rich and rnd.random() < 0.3:
+                    # one list object referenced from a data value (under a key that sorts before the cassette's own
+                    # bookkeeping keys) *and* from the metadata, where it occurs twice
+                    cross = ['eu', 'priority']
+                    data['Request "tags"'] = {'value': {'tags': cross, 'other': [1]}}
+                    pm['tags'] = cross
+                    pm['more'] = {'again': cross, 'n': 1}
                 if not self.rich or composite_is_faithful(data, pm):
                     break
                 self.outside_domain += 1
